@@ -440,6 +440,9 @@ pub fn stmt_strategy() -> impl Strategy<Value = Stmt> {
         // copies (value, not reference): a later re-binding of the source must not show through
         2 => (0u8..11, 0u8..11, 0u8..5, any::<u32>()).prop_map(|(i, j, c, b)| Stmt::Assign(i, c.wrapping_add(1), b.rotate_left(7), Expr::One(Operand::Name(j, c, b)))),
         2 => (0u8..11, 0u8..5, any::<u32>()).prop_map(|(i, c, b)| Stmt::Use(Expr::One(Operand::Name(i, c, b)))),
+        // a name re-bound to a value that differs from its current one by less than the printer shows
+        // (`x = x + 0,004`): the new value is the binding, however alike the two print
+        2 => (0u8..11, 0u8..5, any::<u32>(), prop::sample::select(vec!["+ 0,004", "* 1,0001", "- 0,0003", "+ 0,004 usd", "+ 1 g", "+ 0,3%"])).prop_map(|(i, c, b, s)| Stmt::Assign(i, c, b, Expr::Suffix(Operand::Name(i, c, b), s.to_string()))),
         7 => expr_strategy().prop_map(Stmt::Use),
         2 => (0u8..11, 0u8..5).prop_map(|(i, k)| Stmt::Fail(i, k)),
         1 => (0u8..6).prop_map(Stmt::Garbage),
